@@ -81,6 +81,8 @@ def run_case(case):
                       "m": case["mode"], "mt": case["mt"]})
     elif k == "dir":
         nodes.append({"p": e, "t": "d", "m": 0o750, "mt": case["mt"]})
+    elif k == "fifo":
+        nodes.append({"p": e, "t": "p", "m": 0o640, "mt": case["mt"]})
     elif k == "tree":
         for n in case["tree"]:
             n = dict(n)
